@@ -186,9 +186,11 @@ class FakeTRX(Transceiver):
 			return False
 
 		if msg.fn % self.burst_drop_period == 0:
+			# count the burst before doing anything else: a FAKE_DROP command
+			# handled by the other thread must not get in between
+			self.burst_drop_amount -= 1
 			log.info("(%s) Simulation: dropping burst (fn=%u %% %u == 0)"
 				% (self, msg.fn, self.burst_drop_period))
-			self.burst_drop_amount -= 1
 			return True
 
 		return False
